@@ -659,7 +659,7 @@ type EvState struct {
 
 type pendEvents struct {
 	whenTrue, whenFalse *evSummary
-	applied            map[string]int // what was already added to Max at the call (the larger outcome)
+	applied             map[string]int // what was already added to Max at the call (the larger outcome)
 }
 
 // Classifier maps a step to the events it performs (in order).
@@ -1227,7 +1227,7 @@ func (g *Graph) okHelperAssign(n ast.Node) (string, *FuncInfo) {
 	if sig.Results().Len() != len(as.Lhs) {
 		return "", nil
 	}
-	if b, isB := sig.Results().At(sig.Results().Len()-1).Type().Underlying().(*types.Basic); !isB || b.Kind() != types.Bool {
+	if b, isB := sig.Results().At(sig.Results().Len() - 1).Type().Underlying().(*types.Basic); !isB || b.Kind() != types.Bool {
 		return "", nil
 	}
 	id, isId := as.Lhs[len(as.Lhs)-1].(*ast.Ident)
